@@ -191,10 +191,14 @@ impl ToTokens for MatchArm<'_> {
         // The behavior of `with_span` makes this safe to do; if the child applied an
         // even-more-specific span, our attempt here will not overwrite that and will only cost
         // us one `if` check.
+        // The local keeps the derive's own span: locals are hygienic, so a `with` path or a
+        // field type from another syntax context (a `macro_rules!` argument) must not lend it
+        // its span.
+        let inner = quote!(__inner);
         let extractor = quote_spanned!(with_callable.span()=>
-        ::darling::export::identity::<fn(&::darling::export::syn::Meta) -> ::darling::Result<_>>(#with_callable)(__inner)
+        ::darling::export::identity::<fn(&::darling::export::syn::Meta) -> ::darling::Result<_>>(#with_callable)(#inner)
             #post_transform
-            .map_err(|e| e.with_span(&__inner).at(#location))
+            .map_err(|e| e.with_span(&#inner).at(#location))
         );
 
         tokens.append_all(if field.multiple {
